@@ -40,6 +40,12 @@ def main():
         # machinery failure: reported as an error of the check (exit 2), never as a pass
         print("CHECK-ERROR property=%s: %s" % (a.pid, e))
         traceback.print_exc()
+        if ctx.violations or ctx.broken_obligations:
+            # violations already established are reported even though a later stage of the check
+            # (typically a coverage requirement that the broken behaviour itself starves) failed
+            ctx.notes.append("check aborted by a machinery error after violations were found: %s" % e)
+            ctx.finish()
+            return 1
         return 2
     return ctx.finish()
 
